@@ -35,6 +35,8 @@ def run(ctx):
         cases.append({"w": wire.case("public_key_of", Ed25519PrivateKey.from_private_bytes(sd)), "meta": {"k": "pubobj", "seed": sd.hex()}})
         if i < (22 if ctx.quick else 200):
             pl = J.rand_json(rng, depth=2) if i % 3 else {"name": "pkg", "n": i}
+            if i % 5 == 4:
+                pl = ["12", "null", "{}", "\"abc\"", "[\n  1\n]", "true", "{\n  \"a\": 1\n}"][(i // 5) % 7]      # strings that spell canonical JSON text
             try:
                 E.canon(pl)
             except (TypeError, ValueError):
@@ -140,6 +142,23 @@ def run(ctx):
                 if not ok:
                     return "malformed key encoding accepted: %r" % (arg,)
         return None
+    # the Gallina specification of RFC 8032 (extracted, no oracle table) against the library's backend: same public key, same signature
+    # bytes, same verdicts (also on corrupted signatures and the RFC's vectors); SHA-512 against hashlib
+    gseeds = [bytes.fromhex(R.VECTORS[1][0]), rng.randbytes(32)] + ([] if ctx.quick else [special[0]] + [rng.randbytes(32) for _ in range(10)] + special[1:4])
+    gcases = []
+    for i, sd in enumerate(gseeds):
+        msg = [bytes.fromhex(R.VECTORS[1][2]), b"", rng.randbytes(200)][i % 3]
+        sg = ed_sign(sd, msg)
+        pk = ed_pub(sd)
+        gcases += [{"w": wire.case("rfc8032_pub", sd, None), "meta": {"k": "g"}}, {"w": wire.case("rfc8032_sign", sd, msg), "meta": {"k": "g"}},
+                   {"w": wire.case("rfc8032_verify", pk, msg, sg), "meta": {"k": "g"}}]
+        if i < (1 if ctx.quick else 4):
+            bad = bytearray(sg); bad[rng.randrange(64)] ^= 1 << rng.randrange(8)
+            gcases += [{"w": wire.case("rfc8032_verify", pk, msg + b"x", sg), "meta": {"k": "g"}}, {"w": wire.case("rfc8032_verify", pk, msg, bytes(bad)), "meta": {"k": "g"}}]
+    for m in (b"", b"abc", b"a" * 111, b"a" * 112, b"a" * 128, rng.randbytes(300)):
+        gcases.append({"w": wire.case("sha512", m, None), "meta": {"k": "g"}})
+    core.run_stream(ctx, core.Stream("the Gallina RFC 8032 specification (extracted) vs the library: public keys, signatures, verification verdicts, SHA-512", gcases,
+                                     lambda c, io, mo: None if io == mo else "Gallina RFC 8032 and the library differ: %s vs %s" % (io[:60], mo[:60]), None))
     core.run_stream(ctx, core.Stream("key derivation/signing vs RFC 8032 (section 7.1 vectors + random seeds/messages), conversions in every direction, equivalence, key files, malformed encodings",
                                      cases, rel, oracle, nontrivial=lambda c, i, m: c["meta"]["k"] not in ("bad", "bad-obj")))
     # composition of conversions: any type-correct chain is the identity (checked on the implementation results above through the model);
